@@ -70,6 +70,14 @@ def fold_accumulators(fx, res):
             for r in clo_prov:
                 if r.startswith("CALL:") and "{closure" in r:
                     out[r[5:]] = ("P2", init_prov)
+            # a closure that captures nothing is a constant: identify it by its type `{closure@file:line:..}`
+            a2 = t["args"][2]
+            cty = (a2.get("const") or {}).get("ty") or (op_place(a2) or {}).get("ty") or ""
+            m_ = re.search(r"\{closure@([^:}]+):(\d+):", cty)
+            if m_:
+                cands = [k for k in fx.fns if k.startswith(fid + "::{closure") and (fx.fns[k].get("span") or {}).get("file") == m_.group(1) and (fx.fns[k].get("span") or {}).get("line") == int(m_.group(2))]
+                if len(cands) == 1 and cands[0] not in out:
+                    out[cands[0]] = ("P2", init_prov)
     return out
 
 
